@@ -9,7 +9,6 @@ from __future__ import annotations
 import hashlib
 import itertools
 import json
-import multiprocessing as mp
 import os
 import shutil
 import sys
@@ -256,31 +255,21 @@ def _worker_chunk(arg):
     return idx, agg
 
 
-def _worker_init():
-    # workers must die on Pool.terminate(): the runner's SIGTERM handler (sys.exit -> scratch cleanup) is for the master only
-    import signal
-    signal.signal(signal.SIGTERM, signal.SIG_DFL)
-    signal.signal(signal.SIGINT, signal.SIG_IGN)
+def _parallel(func, tasks):
+    """run func over tasks in forked workers (svmc.pool: no helper threads, dead/hung workers are replaced)."""
+    from . import pool
+
+    def on_exc(name, text, tb):
+        if name in ("HarnessError", "ReplayDivergence"):
+            raise HarnessError(text)
+        raise HarnessError(f"worker raised {name}: {text}\n{tb}")
+    try:
+        return pool.run(func, tasks, workers=WORKERS, stall_s=STALL_S, on_exception=on_exc)
+    except pool.PoolError as e:
+        raise HarnessError(f"worker pool: {e}")
 
 
-STALL_S = float(os.environ.get("SVMC_STALL_S", "3600"))
-
-
-def _drain(it):
-    """collect results of an imap iterator; a worker that died (or hangs) must not hang the check forever."""
-    out = []
-    while True:
-        try:
-            out.append(it.next(timeout=STALL_S))
-        except StopIteration:
-            return out
-        except mp.TimeoutError:
-            raise HarnessError(f"no result from the worker pool for {STALL_S:.0f} s (a worker died or hangs)")
-
-
-def _pool():
-    ctx = mp.get_context("fork")
-    return ctx.Pool(WORKERS, initializer=_worker_init)
+STALL_S = float(os.environ.get("SVMC_STALL_S", "1200"))      # a single task (chunk / sub-tree) never legitimately takes this long
 
 
 class CaseStage(Stage):
@@ -317,8 +306,7 @@ class CaseStage(Stage):
             for c in chunks:
                 results.append(_worker_chunk(c))
         else:
-            with _pool() as pool:
-                results = _drain(pool.imap_unordered(_worker_chunk, chunks))
+            results = _parallel(_worker_chunk, chunks)
         results.sort(key=lambda r: r[0])
         for _, agg in results:
             self.agg.merge(agg, disjoint=self.disjoint)
@@ -451,8 +439,7 @@ class ExploreStage(Stage):
             if WORKERS <= 1 or len(tasks) < 4:
                 results = [_worker_subtree(t) for t in tasks]
             else:
-                with _pool() as pool:
-                    results = _drain(pool.imap_unordered(_worker_subtree, tasks, chunksize=max(1, len(tasks) // (WORKERS * 16))))
+                results = _parallel(_worker_subtree, tasks)
         results.sort(key=lambda r: r[0])
         for _, agg in results:
             self.agg.merge(agg)
@@ -537,8 +524,7 @@ class BfsStage(Stage):
             if WORKERS <= 1 or n < 4:
                 results = [_worker_bfs(c) for c in chunks]
             else:
-                with _pool() as pool:
-                    results = _drain(pool.imap_unordered(_worker_bfs, chunks))
+                results = _parallel(_worker_bfs, chunks)
             results.sort(key=lambda r: r[0])
             nxt = []
             for _, agg, out in results:
